@@ -50,6 +50,10 @@ def run_batch(ctx, cfg, batch, props):
             R.replay(ctx, cfg, evs, ops, exp, None if mres is None else mres[j], props)
             if len(ctx.failures) + len(ctx.disagreements) > 30:
                 return
+        if "C02" in props:
+            R.flush_listedit(ctx)
+        else:
+            ctx.listedit = []
         if (i // CH) % 5 == 0 and part:
             ctx.sample({"events": part[0][0], "ops": part[0][1]})
 
